@@ -16,8 +16,10 @@ func init() {
 	sim.Register(&sim.Check{
 		ID: "C46", Title: "The ordered block buffer yields blocks lowest round first", World: "threads",
 		Gen: genC46, Exec: execC46, Prepare: prepareFn(false),
-		Quick:       sim.Budget{Runs: 3000, WallS: 40},
-		Thorough:    sim.Budget{Runs: 1500000, WallS: 780},
+		Quick:    sim.Budget{Runs: 3000, WallS: 150},
+		Thorough: sim.Budget{Runs: 1500000, WallS: 780},
+		// WallS only caps the batch: on an idle machine the quick batch takes 10-25 s plus 4 s (plain) / 15 s (-race) for the
+		// instrumented build; the driver starts the clock before Prepare, so the cap leaves room for a slow build under load
 		RunsPerProc: 200,
 		LevelText: "seeded search over concurrent histories (<= 4 clients, <= 40 operations) and interleavings of the real OrderBuffer; every history is checked for " +
 			"linearizability against the sorted-multiset model of DESIGN A.8 with porcupine; a clean batch is evidence, not proof",
@@ -88,10 +90,6 @@ func genC46(seed uint64, tier string) *sim.Plan {
 // ---- reference model (DESIGN A.8, from the property statement) -----------------------------------
 
 type obItem struct{ r, p int64 }
-
-type obState struct {
-	items string // canonical encoding, comparable
-}
 
 type obIn struct {
 	op   string
